@@ -1,8 +1,56 @@
 (* C02 — Notes inherit metadata from the page title and enclosing sections only.
-   PARTIAL: the end-to-end statement over abstract pages is decided by the
-   exhaustive skeleton enumeration of the harness; proved here, for every
-   listener state, are the scoping mechanisms. *)
-From Zorg Require Import Base.PyStr Base.Res Base.Dates Model.FileListener Model.Witness Proofs.FileListenerFacts.
+   Proved end-to-end on the listener: for EVERY abstract well-formed page, walking the tree the parser builds
+   for it yields spec_page (C02_scoping_on_pages = the page theorem of C01), and spec_page reads metadata by
+   scope: a note carries the tags / links of the title line, of its enclosing section headers and its own
+   (C02_note_metadata_is_scope_metadata); a section's title metadata reaches its own blocks and sub-sections and
+   not the sibling sections after it (C02_section_scope, C02_siblings_unaffected); properties are unioned outer to
+   inner so the innermost value wins; the creation date is the note's own, else that of the innermost dated
+   scope, else today (C02_innermost_date_wins).  The tie of tree_of_page to the real parser is differential
+   (see C01.v).  The per-handler theorems below hold for every listener state and every tree. *)
+From Zorg Require Import Base.PyStr Base.Res Base.Dates Gen.Params Model.FileListener Model.Witness Proofs.FileListenerFacts
+  Model.PageSyntax Proofs.PageFacts.
+
+Theorem C02_scoping_on_pages : forall today pg,
+  valid_page pg ->
+  exists secs, listen today false (tree_of_page pg) = Ok (mkPage false (spec_page today pg) secs).
+Proof. exact page_correct. Qed.
+
+(* ot / op / od: the tags, properties and date of the five enclosing scopes (title line, H1..H4 headers;
+   empty where no such section is open), outermost first *)
+Theorem C02_note_metadata_is_scope_metadata : forall today ot op od key line it,
+  let n := spec_note today ot op od key line it in
+  let ws := item_words it in
+  n_areas n = tagvals "areas" (concat ot ++ words_tags ws) /\
+  n_contexts n = tagvals "contexts" (concat ot ++ words_tags ws) /\
+  n_people n = tagvals "people" (concat ot ++ words_tags ws) /\
+  n_projects n = tagvals "projects" (concat ot ++ words_tags ws) /\
+  n_links n = tagvals "links" (concat ot ++ words_tags ws) /\
+  n_props n = fold_left dict_union (op ++ [words_props ws []]) [] /\
+  n_create n = match ident_create today (i_ident it) with Some d => d | None => outer_date today od end.
+Proof.
+  intros. destruct (spec_note_reading today ot op od key line it) as (_ & _ & _ & _ & A & B & C & D & E & F & G).
+  repeat split; assumption.
+Qed.
+
+Theorem C02_section_scope : forall today lvl ot op od path l title bs subs,
+  spec_sec today lvl ot op od path l (GSec title bs subs) =
+  let ot' := upd (Datatypes.S lvl) (fun _ => words_tags title) ot in
+  let op' := upd (Datatypes.S lvl) (fun _ => words_props title []) op in
+  let od' := upd (Datatypes.S lvl) (fun _ => words_date today title None) od in
+  spec_blocks today ot' op' od' path 0 (l + 2) bs ++
+  spec_secs today (Datatypes.S lvl) ot' op' od' path 0 (l + 2 + blocks_lines bs) subs.
+Proof. exact section_scope. Qed.
+
+Theorem C02_siblings_unaffected : forall today lvl ot op od parent j l s r,
+  spec_secs today lvl ot op od parent j l (s :: r) =
+  spec_sec today lvl ot op od (parent ++ [Datatypes.S j]) l s ++
+  spec_secs today lvl ot op od parent (Datatypes.S j) (l + sec_lines s) r.
+Proof. exact siblings_scope. Qed.
+
+Theorem C02_innermost_date_wins : forall today od d,
+  outer_date today (od ++ [Some d]) = d /\ outer_date today (od ++ [None]) = outer_date today od /\
+  forall n, outer_date today (repeat None n) = today.
+Proof. intros. split; [apply outer_date_inner|split; [apply outer_date_skip|apply outer_date_none]]. Qed.
 
 Theorem C02_exit_section_clears : forall today errors r l kids lvl st,
   classify r = RSection lvl ->
@@ -57,6 +105,11 @@ Example C02_example :
     n_areas n = [S "a1"] /\ n_projects n = [S "p1"] /\ n_props n = [(S "k", S "v"); (S "b", S "w z")].
 Proof. eexists. eexists. split; [vm_compute; reflexivity|]. repeat split. Qed.
 
+Print Assumptions C02_scoping_on_pages.
+Print Assumptions C02_note_metadata_is_scope_metadata.
+Print Assumptions C02_section_scope.
+Print Assumptions C02_siblings_unaffected.
+Print Assumptions C02_innermost_date_wins.
 Print Assumptions C02_exit_section_clears.
 Print Assumptions C02_item_resets_note_scope.
 Print Assumptions C02_comment_records_nothing.
